@@ -443,7 +443,7 @@ async fn run_store_inner(case: &WalStoreCase, dir: &Path, stats: &mut Stats) -> 
     // build the pristine store: everything stays in the WAL (flush_on_close = false)
     let mut states: Vec<BTreeMap<Vec<u8>, Vec<u8>>> = vec![BTreeMap::new()];
     {
-        let tree = surrealkv::TreeBuilder::with_options(store_opts(&pristine, false)).build().map_err(|e| Failure { class: "open-failed".into(), step: usize::MAX, msg: format!("{e:?}"), aux: json!({}) })?;
+        let tree = crate::util::build_tree(store_opts(&pristine, false)).map_err(|e| Failure { class: "open-failed".into(), step: usize::MAX, msg: format!("{e:?}"), aux: json!({}) })?;
         for (i, t) in case.txns.iter().enumerate() {
             let mut txn = tree.begin().map_err(|e| Failure { class: "begin-error".into(), step: i, msg: format!("{e:?}"), aux: json!({}) })?;
             let mut st = states.last().unwrap().clone();
@@ -490,7 +490,7 @@ async fn run_store_inner(case: &WalStoreCase, dir: &Path, stats: &mut Stats) -> 
         std::fs::write(work.join("wal").join(&seg_name), &bytes).map_err(|e| Failure { class: "harness-io".into(), step: usize::MAX, msg: e.to_string(), aux: json!({}) })?;
         let must = ends.iter().filter(|e| **e as usize <= at).count();
         let what = format!("{d:?} of the {}-byte WAL segment of a store with {} commits (absolute_consistency={})", data.len(), case.txns.len(), case.absolute);
-        let tree = match surrealkv::TreeBuilder::with_options(store_opts(&work, case.absolute)).build() {
+        let tree = match crate::util::build_tree(store_opts(&work, case.absolute)) {
             Ok(t) => t,
             Err(e) => {
                 if case.absolute {
@@ -544,7 +544,7 @@ async fn run_store_inner(case: &WalStoreCase, dir: &Path, stats: &mut Stats) -> 
             expect.insert(k, v);
         }
         close_tree(tree).await.map_err(|m| Failure { class: "close-error".into(), step: usize::MAX, msg: format!("{what}: {m}"), aux: json!({}) })?;
-        let tree = match surrealkv::TreeBuilder::with_options(store_opts(&work, case.absolute)).build() {
+        let tree = match crate::util::build_tree(store_opts(&work, case.absolute)) {
             Ok(t) => t,
             Err(e) => return fail("reopen-failed", format!("{what}: second build() (after {} post-recovery commits) failed: {e:?}", case.probes)),
         };
